@@ -389,11 +389,11 @@ def script_args(ob, scripts):
     ob = ob or {}
     return [('[0x%s]' % bytes(s).hex()) if leaf_len(ob, i) == 3 else bytes(full_script(ob, i, s)).hex() for i, s in enumerate(scripts)]
 
-def native_check(exe, key, scripts, idx, ob=None):
+def native_check(exe, key, scripts, idx, ob=None, raw=False):
     """run the real tap binary and verify its output with an independent BIP341 implementation (real SHA-256; the curve step is taken from the address)"""
     import hashlib
     def tagged(tag, d): t = hashlib.sha256(tag).digest(); return hashlib.sha256(t + t + bytes(d)).digest()
-    cmd = [exe, bytes(key).hex(), str(len(scripts))] + script_args(ob, scripts) + ([str(idx)] if idx is not None else [])
+    cmd = [exe, bytes(key).hex(), str(len(scripts))] + ([('[0x%s]' % bytes(x).hex()) for x in scripts] if raw else script_args(ob, scripts)) + ([str(idx)] if idx is not None else [])          # raw: payloads of single pushes
     rc, out, err = runtool.run(cmd, stdin_tty=True, stdout_tty=True)
     txt = (out + err).replace(b'\r\n', b'\n').decode('latin1')
     import re
@@ -401,7 +401,7 @@ def native_check(exe, key, scripts, idx, ob=None):
     if rc != 0 or not ma: return None, 'tap exit %s: %s' % (rc, txt[-300:])
     res = dict(address=ma.group(1))
     if idx is not None and mc and mt:
-        ctl = bytes.fromhex(mc.group(1)); script = bytes(full_script(ob or {}, idx, scripts[idx]))
+        ctl = bytes.fromhex(mc.group(1)); script = bytes([len(scripts[idx])] + list(scripts[idx])) if raw else bytes(full_script(ob or {}, idx, scripts[idx]))
         k = tagged(b'TapLeaf', bytes([0xc0]) + bytes(hashref.compact_size(len(script))) + script)
         for j in range((len(ctl) - 33) // 32):
             node = ctl[33 + 32 * j:65 + 32 * j]; k = tagged(b'TapBranch', k + node) if k < node else tagged(b'TapBranch', node + k)
@@ -456,7 +456,35 @@ def replay(lib, ob, cex):
         r2, txt2 = native_check(exe, cex['key'], cex['scripts'], 0, ob)
         if r2 is None: return None, txt2
         return (r['address'] != r2['address']), 'real tap: address without selection %s, with leaf 0 selected %s' % (r['address'], r2['address'])
-    return (r.get('proof_ok') is False), 'real tap: %s' % r
+    if r.get('proof_ok') is False: return True, 'real tap: %s' % r
+    # The solver's counterexample lives in a model of the hash functions (they are uninterpreted): the scripts it names need not have hashes in the relation
+    # the model uses. Look for REAL scripts whose leaf hashes stand in such a relation - a common prefix of 1..4 bytes, in both orders of what follows - and
+    # run the real binary on them; only a failure of the real binary on real inputs is reported.
+    hit = hash_relation_probe(exe, cex['key'])
+    if hit is not None: return True, 'the scripts of the solver model do not reproduce it (hash values are modelled), but real scripts whose leaf hashes share a prefix do: ' + hit
+    return False, 'real tap: %s' % r
+
+def hash_relation_probe(exe, key):
+    import hashlib
+    t = hashlib.sha256(b'TapLeaf').digest(); base = hashlib.sha256(t + t)
+    seen = {1: {}, 2: {}, 3: {}, 4: {}}; pairs = {1: [], 2: [], 3: [], 4: []}
+    for i in range(1 << 19):
+        sc = i.to_bytes(3, 'little'); h = base.copy(); h.update(b'\xc0\x04\x03' + sc); d = h.digest()          # leaf script = push of the 3 payload bytes
+        for p in (4, 3, 2, 1):
+            o = seen[p].get(d[:p])
+            if o is None: seen[p][d[:p]] = (sc, d)
+            elif len(pairs[p]) < 6 and o[1][:p + 1] != d[:p + 1]: pairs[p].append((o[0], sc))
+        if len(pairs[4]) >= 4: break
+    for p in (4, 3, 2, 1):
+        for a, b in pairs[p]:
+            for scripts in ([list(a), list(b)], [list(b), list(a)]):
+                base_r, _ = native_check(exe, key, scripts, None, raw=True)
+                for idx in (0, 1):
+                    r, txt = native_check(exe, key, scripts, idx, raw=True)
+                    if r is None or base_r is None: continue
+                    if r.get('proof_ok') is False or r['address'] != base_r['address']:
+                        return 'tap %s 2 %s %s %d -> %r (leaf hashes share %d leading bytes)' % (bytes(key).hex(), bytes(scripts[0]).hex(), bytes(scripts[1]).hex(), idx, r, p)
+    return None
 
 def validate(E, lib):
     """the real tap binary on concrete inputs: every spending index must give the same address and a control block that an independent BIP341 fold accepts"""
